@@ -30,7 +30,9 @@ func newC09Universe(c *Ctx) *c09Universe {
 		b = makeCert(c.Rng, "cert-B", 3)
 	}
 	cc := makeCert(c.Rng, "cert-C", 9)
-	u.data = [][]byte{h1, h2, h1[:31], append(append([]byte{}, h1...), 0x01), a, pemOf(a), b, cc, pemOf(cc), make([]byte, 20)}
+	// index 10: PEM of cert A behind the text other tools put in front of the block (pem.Decode skips it)
+	pre := append([]byte("Bag Attributes\n    friendlyName: cert-A\nsubject=CN = cert-A\n\n"), pemOf(a)...)
+	u.data = [][]byte{h1, h2, h1[:31], append(append([]byte{}, h1...), 0x01), a, pemOf(a), b, cc, pemOf(cc), make([]byte, 20), pre}
 	for _, d := range u.data {
 		if blk, _ := pem.Decode(d); blk != nil {
 			u.pems[hx(d)] = blk.Bytes
@@ -216,6 +218,13 @@ func c09History(c *Ctx, cs Case, prop string) {
 				}
 				db.AppendList(sl)
 				class = "ok"
+			case "LA":
+				// list-level AppendBytes on a list that is part of the database
+				i := atoi(f[1])
+				class = "err"
+				if es := splitSigs(f[2]); i < len(*db) && len(es) == 1 {
+					class = errClass((*db)[i].AppendBytes(guidFromWire(es[0][0]), es[0][1]))
+				}
 			case "E":
 				d, err := signature.ReadSignatureDatabase(bytes.NewReader(db.Bytes()))
 				class = errClass(err)
@@ -414,15 +423,29 @@ func genHistory(c *Ctx, u *c09Universe, maxLen int) Case {
 			case bytes.Equal(t, tSHA256):
 				d = u.data[c.Rng.Intn(4)]
 			case bytes.Equal(t, tX509):
-				d = u.data[4+c.Rng.Intn(5)]
+				d = u.data[[]int{4, 5, 6, 7, 8, 10}[c.Rng.Intn(6)]]
 			}
 		}
 		if len(recent) > 0 && c.Rng.Intn(2) == 0 {
 			r := recent[c.Rng.Intn(len(recent))]
 			t, o, d = r[0], r[1], r[2]
 			if c.Rng.Intn(4) == 0 { // same data, other form (PEM <-> DER)
-				if der, ok := u.pems[hx(d)]; ok {
+				if der, ok := u.pems[hx(d)]; ok && c.Rng.Intn(2) == 0 {
 					d = der
+				} else { // or another textual form of the same certificate
+					der, isPem := u.pems[hx(d)]
+					if !isPem {
+						der = d
+					}
+					var forms [][]byte
+					for _, x := range u.data {
+						if dd, ok := u.pems[hx(x)]; ok && bytes.Equal(dd, der) && !bytes.Equal(x, d) {
+							forms = append(forms, x)
+						}
+					}
+					if len(forms) > 0 {
+						d = forms[c.Rng.Intn(len(forms))]
+					}
 				}
 			}
 		}
@@ -579,7 +602,7 @@ func c09Gen(c *Ctx) {
 
 func init() {
 	register("C09", &PropDef{
-		Rule: "random histories of append / remove / BytesExists / Exists / AppendList / encode-decode over types {X509, SHA256, SHA1 (valid, undecodable), unknown GUID} x 2 owners x {two hashes, 31- and 33-byte strings, cert A DER/PEM, cert B (|B|=|A|), cert C DER/PEM (|C|!=|A|), 20 bytes}, started from empty or from a decoded well-formed stream; operands are biased towards recently used triples. Non-trivial: at least two operations of at least two kinds; distinct = distinct histories.",
+		Rule:   "random histories of append / remove / BytesExists / Exists / AppendList / encode-decode over types {X509, SHA256, SHA1 (valid, undecodable), unknown GUID} x 2 owners x {two hashes, 31- and 33-byte strings, cert A DER/PEM/PEM behind a text preamble, cert B (|B|=|A|), cert C DER/PEM (|C|!=|A|), 20 bytes}, started from empty or from a decoded well-formed stream; operands are biased towards recently used triples. Non-trivial: at least two operations of at least two kinds; distinct = distinct histories.",
 		Assume: []string{"lists handed to AppendList are fresh, well-formed and duplicate-free (slice aliasing between two databases is outside the model); an empty one reproduces known finding F20", "a decoded start database has no duplicate entry inside a list"},
 		Eval:   c09Eval,
 		Gen:    c09Gen,
